@@ -73,6 +73,9 @@ class DBusProperty:
         instance._dbusProperties[self.key] = value
 
         if self.iprop.emits == 'true':
+            if self.iprop.sig in marshal.variantClassMap:
+                # as for Get: the variant carries the declared type
+                value = marshal.variantClassMap[self.iprop.sig](value)
             instance.emitSignal(
                 'PropertiesChanged',
                 self.interface,
